@@ -18,7 +18,7 @@ CHECKS = {
 
 CHECKS.update({
  "C07": ("k symbolic store operations (deliver/get/mark-seen/remove/purge/visit/list, ids from a menu incl. missing, 'latest', empty) on a fresh mem.New store compared after every step with an ordered-list reference model (ids never reused, content/size/seen read back, missing => ErrNotExist); paths with the same store shape are merged, other shapes are explored separately",
-         "memory back-end only: the file store needs a file-system/gob model that is not built (see DESIGN §5), so back-end equivalence is claimed only as 'mem refines the reference model'; k <= 4 operations, two mailboxes, bodies of 1..3 bytes", "4 C07"),
+         "both back-ends refine the same reference model: memory store k <= 4 operations; file store (over the file-system model, see C10) k <= 2 (thorough 3) operations; two mailboxes, bodies of 1..3 bytes", "4 C07"),
  "C08": ("k symbolic operations (deliver with sizes from a menu, remove, purge) on mem.New with a mailbox cap and/or a store size limit — the real maxSizeEnforcer goroutine and its channels are executed — compared after every step with a reference that evicts oldest-first; stored bytes <= limit; a fitting new message is retrievable at once",
          "memory store only (file-store cap loop not covered); goroutines scheduled run-to-block (one schedule per history; other interleavings are C09); k <= 4 (thorough 5), sizes {400,700,1100}, cap in {0,1,2}, limit in {0,1,2} KiB", "4 C08"),
  "C13": ("real pop3.startSession loop over scripted sessions (optional USER/PASS prelude + k symbolic menu steps, then EOF / idle timeout / network error); ghost POP3 model: status indicators, RFC 1939 data fields of STAT/LIST/UIDL, snapshot stability while the store changes behind the session, deletions committed exactly on QUIT",
@@ -31,11 +31,11 @@ CHECKS.update({
  "C02": ("byte-exact content: Deliver -> mem.AddMessage -> Source()/Size() equals Return-Path + Received + body for every body of <= n symbolic bytes (all 256 values); REST and web UI source handlers write exactly Source(); POP3 RETR/TOP re-stuffs and CRLF-normalises line by line so that un-stuffing gives the source back",
          "bodies <= 3 (thorough 10) bytes, POP3 sources <= 5 (8) bytes ending in LF (the shape textproto.ReadDotBytes produces); bufio.Scanner, textproto and io.Copy are models; lines beyond 64 KiB, MiB bodies and the file store are outside the claim", "4 C02"),
  "C12": ("RetentionScanner.DoScan over the real memory store with symbolic message ages, period and a symbolic non-decreasing clock: expired => removed, young => retained in order, a delivery landing between the scanner's snapshot and its removals survives; Start/Join with cancellation at the n-th observation point: disabled for period <= 0, loop exits, no further mailbox visited",
-         "memory back-end; <= 5 (6) messages in two mailboxes; time.Time modelled as int64 nanoseconds; timers fire only when nothing else is ready (a closed Done wins over a pending timer)", "4 C12"),
+         "memory back-end for the symbolic-age scan (<= 5 (6) messages in two mailboxes); file back-end: retention scan and stop-when-told visitor inside the C10 history harness; time.Time modelled as int64 nanoseconds; timers fire only when nothing else is ready (a closed Done wins over a pending timer)", "4 C12"),
  "C14": ("each REST v1 handler and web UI handler over the real StoreManager + memory store: status <=> existence for every name alias / id, payload and effects equal the store; the Go client's requests (real net/url + net/http request construction) match the server's route table incl. the body mark-seen requires; escaping round trip for all short ASCII names",
          "gorilla/mux, net/http serving, encoding/json and enmime are models (handlers are called with extracted route variables); memory back-end; one request per pre-state of <= 2 (3) messages; client names from a menu of 9 URL-hostile names; base path prefixing outside", "4 C14"),
- "C16": ("deleted events: k symbolic operations on mem.New with cap / size limit and a listener registered through extension.Host — the events seen are exactly the departures of the reference model, one each; stored events: one per message stored by StoreManager.Deliver",
-         "count/identity only: listeners are run to completion after each operation, so 'next invocation only after the previous finished' and stored-before-deleted ordering under arbitrary schedules are NOT decided (the async broker starts one goroutine per event; see DESIGN §6); memory back-end", "4 C16"),
+ "C16": ("deleted events: k symbolic operations on mem.New (cap / size limit) and on file.New (file-system model) with a listener registered through extension.Host — the events seen are exactly the departures of the reference model, one each; stored events: one per message stored by StoreManager.Deliver; ordering: n events through the real Host brokers to a listener whose invocations can each be held at a symbolic gate — never re-entered, emission order (stored before deleted), emitter never blocked",
+         "count/identity on both back-ends (file store via the C10 history harness); ordering: VerifC16Order holds each listener invocation at a symbolic gate (slow listener / any relative scheduling of the dispatch goroutines): never re-entered, emission order, emitter never blocked; pre-emption inside the broker's own code is not explored", "4 C16"),
  "C17": ("before-hooks honoured literally: two listeners per event registered through the real EventBroker answer nil/defer/allow/deny(code) symbolically; MAIL/RCPT replies, first-answer-wins, policy fallback, recipient limit; BeforeMessageStored replacement used literally by Deliver",
          "the gopher-lua VM is outside the encoding: listeners are Go closures standing for what luahost hands to the broker; Lua error handling, statePool concurrency and 'wrong kind of value' are not decided", "4 C17"),
 })
@@ -49,9 +49,14 @@ CHECKS.update({
          "one connection per server, schedule choices limited to the harness-placed gates on top of run-to-block; real sockets, timedExit, the web server and cmd/inbucket wiring are outside", "4 C19"),
 })
 
+CHECKS.update({
+ "C10": ("k symbolic operations on the real file store (file.New) executed over a Go-written file-system model (os, bufio.Writer, encoding/gob, crypto/sha1 redirected): deliver, get, mark seen, remove, purge, visit, retention scan and reopen (a new Store on the same path, any number of times); after every step each mailbox equals a reference model in ids, order, metadata, seen flags, sizes and content; ids never reused; counterexamples replayed on a real temporary directory",
+         "bounded: k <= 2 (thorough 3) operations after an optional concrete prelude, two mailboxes, 2-byte bodies, cap 0..2; gob round trip = deep copy of exported fields (validated by native replay of every cover point and counterexample); restart = new Store object in the same process, so id reuse by a *second process* within the same second is outside the claim", "4 C10"),
+ "C11": ("one mutating file-store operation cut at a symbolic crash point (crash hooks before every file-system mutation and after every write, tag verif) with the write / recursive removal / directory creation in flight partly done (symbolic prefix, subset, depth); a fresh Store on the directory lists and visits every mailbox without error, other mailboxes intact, the operation all-or-nothing with complete content, new mail accepted; replayed natively with the same hooks on a real directory",
+         "bounded: one interrupted operation (deliver / mark seen / remove / purge) after a concrete prelude of 0..3 messages, cap 0..2; atomic steps = create/truncate, write, rename, remove, mkdir; data written before the crash point is durable and ordered (no fsync / write-reordering model); crash = panic in the hook, so deferred file-system mutations (none exist) would run; known finding: cap eviction is not atomic with the delivery", "4 C11"),
+})
+
 NOT_APPLICABLE = {
- "C10": "file-store durability needs a symbolic model of the OS file system, bufio writers and encoding/gob (reflection-based, not executable by the engine); not built — see DESIGN.md §5; no other technique is substituted",
- "C11": "crash consistency needs the same file-system/gob model plus crash points with torn writes and strace-driven native replay; not built — see DESIGN.md §5",
  "C18": "the property is carried by bluemonday and two third-party tokenizers that cannot be encoded; inbucket's glue only sees their token streams, and counterexamples over arbitrary token streams cannot be replayed natively — see DESIGN.md §5",
 }
 
@@ -82,15 +87,15 @@ def main():
         "setup_cmd": SETUP,
         "hooks": {
             "guard": "verif",
-            "enable": "none needed: harnesses enter /repo's packages through a go/packages and `go test -overlay` overlay (no file is written into /repo, no build tag)",
+            "enable": "the engine loads and replays /repo with GOFLAGS=-tags=verif (engine/sx/load.go GoEnv); the only guarded code is pkg/storage/file/crashpoint_verif.go (CrashHook), harnesses themselves enter through a go/packages and `go test -overlay` overlay (no file is written into /repo)",
             "baseline_off_cmd": "cd /repo && GOFLAGS=-mod=mod GOPROXY=off go test -vet=off -count=1 ./...",
-            "source_commits": [],
+            "source_commits": ["0fdfac7"],
             "add_only": True,
         },
         "engines": [{"name": "gosmt", "path": "/verif/engine", "serves_properties": sorted(CHECKS), "kind_free_text": "go/ssa symbolic executor with state merging; SMT-LIB2 QF_BV queries decided by z3 5.1 (z3-new); counterexample and cover models replayed natively through `go test -overlay`"}],
         "checks": checks,
         "not_applicable": na,
-        "notes": "Every check exits 0 = all obligations unsat within the stated bounds and all cover points satisfiable and natively reached; 1 = replayed violation not listed in known_findings.json; 2 = broken (unsupported code, undecided query, vacuous harness, model that does not reproduce). fix: commits in /repo: 288c728 (C03), 7d87c36 (C06), 1c28c1b (C07), 3e84664 (C08), ab07dc1 (C14), 67b69e1 (C16), 4aea936+51ad804 (C15), 9975e1e+e3d37c1 (C19), eb0564f (C09).",
+        "notes": "Every check exits 0 = all obligations unsat within the stated bounds and all cover points satisfiable and natively reached; 1 = replayed violation not listed in known_findings.json; 2 = broken (unsupported code, undecided query, vacuous harness, model that does not reproduce). fix: commits in /repo: 288c728 (C03), 7d87c36 (C06), 1c28c1b (C07), 3e84664 (C08), ab07dc1 (C14), 67b69e1 (C16), 4aea936+51ad804 (C15), 9975e1e+e3d37c1 (C19), eb0564f (C09), 9d661ca (C16 broker order), 9d98e20 (C07 file MarkSeen), ad2f77f+4c7bc0f (C11).",
     }
     json.dump(m, open('/verif/MANIFEST.json', 'w'), indent=1)
     print("checks:", [c['property_id'] for c in checks], "n/a:", len(na))
